@@ -2,13 +2,26 @@ package generator
 
 import (
 	"fmt"
+	"sort"
 
 	"github.com/jmattheis/goverter/method"
+	"github.com/jmattheis/goverter/xtype"
 )
 
 func validateMethods(lookup *method.Index[generatedMethod]) error {
-	for _, hits := range lookup.Exact {
-		for _, entry := range hits {
+	// iterate in a stable order so that the same method is reported on every run
+	sigs := make([]xtype.Signature, 0, len(lookup.Exact))
+	for sig := range lookup.Exact {
+		sigs = append(sigs, sig)
+	}
+	sort.Slice(sigs, func(i, j int) bool {
+		if sigs[i].Source != sigs[j].Source {
+			return sigs[i].Source < sigs[j].Source
+		}
+		return sigs[i].Target < sigs[j].Target
+	})
+	for _, sig := range sigs {
+		for _, entry := range lookup.Exact[sig] {
 			genMethod := entry.Item
 
 			if genMethod.Explicit && len(genMethod.RawFieldSettings) > 0 {
